@@ -164,9 +164,14 @@ def sub_scrubber(rgx, txt: str, default_ns: str, default_ew: str) -> str:
             default_ns=default_ns,
             default_ew=default_ew,
             ocr_scrub=ocr_scrub)
+        # Patterns that do not require the word 'Township' can begin
+        # with the 'deadspace' (whitespace, comma, etc.) that precedes
+        # the Twp number. Keep it, to maintain the gap between this
+        # Twp/Rge and whatever comes before it.
+        leading = re.match(r"[\.\-–—,\s]*", match.group(0)).group(0)
         # Tack on a space at the end to maintain a gap between this
         # Twp/Rge and whatever comes after it.
-        return clean_twprge + ' '
+        return leading + clean_twprge + ' '
 
     # Replace each match where it was found. (Replacing the matched text
     # wherever it occurs would also rewrite other Twp/Rge's that merely
